@@ -31,14 +31,14 @@ type c12case struct {
 	Files     []string    `json:"files"` // relative to the project; trailing "/" = directory
 	Outs      []c12out    `json:"outs"`
 	CleanTask bool        `json:"clean_task"`
-	Nested    bool        `json:"nested"`                // invoked from a nested directory
-	HasCache  bool        `json:"has_cache"`             // a .spok directory exists before
-	Links     [][2]string `json:"links,omitempty"`       // symlinks: path relative to the project -> target
-	ViaLink   bool        `json:"via_link,omitempty"`    // the project (and $HOME) is reached through a symlinked directory
-	LogicPWD  bool        `json:"logical_pwd,omitempty"` // $PWD holds the working directory as the user spelled it (what a shell does)
+	Nested    bool        `json:"nested"`                            // invoked from a nested directory
+	HasCache  bool        `json:"has_cache"`                         // a .spok directory exists before
+	Links     [][2]string `json:"links,omitempty"`                   // symlinks: path relative to the project -> target
+	ViaLink   bool        `json:"via_link,omitempty"`                // the project (and $HOME) is reached through a symlinked directory
+	LogicPWD  bool        `json:"logical_pwd,omitempty"`             // $PWD holds the working directory as the user spelled it (what a shell does)
 	VarsLast  bool        `json:"variables_declared_last,omitempty"` // the variables that name outputs are declared below the tasks
-	ProjName  string      `json:"project_directory,omitempty"` // name of the project directory ("" = proj)
-	Prior     []string    `json:"prior_outputs,omitempty"` // an earlier version of the spokfile declared these outputs and its tasks were run; then the spokfile was edited
+	ProjName  string      `json:"project_directory,omitempty"`       // name of the project directory ("" = proj)
+	Prior     []string    `json:"prior_outputs,omitempty"`           // an earlier version of the spokfile declared these outputs and its tasks were run; then the spokfile was edited
 }
 
 func (k c12case) key() string { b, _ := json.Marshal(k); return string(b) }
@@ -291,7 +291,12 @@ func c12Judge(c *core.Ctx, k c12case, res *core.ShardResult) (vs []core.Violatio
 				}
 				rel, _ := filepath.Rel(proj, p)
 				if !strings.HasPrefix(rel, ".") && ref.Match(o.Text, rel) {
-					allowedDirs[p] = true
+					if info.Mode()&os.ModeSymlink != 0 {
+						// a link is a file whatever it points to (also to nothing): it goes, its target stays
+						declared[p] = true
+					} else {
+						allowedDirs[p] = true
+					}
 				}
 				return nil
 			})
